@@ -8,7 +8,7 @@
    `served ok q st rules` = the request q reaches the application through `rules` when the
    authentication service behind name n accepts the client iff `ok n`. *)
 From Coq Require Import ZArith NArith List Bool Sorting.Sorted.
-From HI Require Import Model.AuthExt Proofs.AuthExt.
+From HI Require Import Model.AuthExt Proofs.AuthExt Model.AuthRules Proofs.AuthRules.
 Import ListNotations.
 
 (* Backend side (auth-url with placement backend, an unknown placement, a frontend placement
@@ -114,3 +114,66 @@ Theorem C18_referenced_binds_survive_host : forall lua used0 px hplace hurl keys
   In b (px_binds px) -> In (b_port b) used0 -> In b (px_binds px').
 Proof. exact host_keeps_referenced. Qed.
 Print Assumptions C18_referenced_binds_survive_host.
+
+(* ------------------------------------------------------------------------------------ *)
+(* The RENDERED rules (Model/AuthRules.v): `gen_auth_rules` transcribes what the current
+   template writes for a backend (Cors block, then AuthExternal block), `eval_rules` runs
+   http-request rules as HAProxy does (in order; deny/redirect -> Denied, use-service ->
+   AnsweredByProxy, lua.auth-intercept sets txn.auth_response_successful to "the service
+   answered ok", set-var/set-header go on).  `out n` is what the call to the authentication
+   service behind n ends with: OOk | ONon2xx | OUnreachable | OMissing. *)
+
+(* For every backend configuration the updater model produces, every CORS configuration of
+   the paths (own or siblings), every number of copied headers, every request method
+   (OPTIONS included), every state left by the frontend: a request of a path in the charge
+   of its backend is Served only if the path has an auth backend and the service behind it
+   answered ok. *)
+Theorem C18_rendered_rules_fail_closed : forall lua fe used0 px ds px' cfgs crs exs d,
+  process_backend lua fe used0 px ds = (px', cfgs) -> In d ds ->
+  backend_in_charge fe d = true ->
+  exists a, In (d_id d, a) cfgs /\
+    forall out st q, q_id (xq q) = d_id d -> skip_free a (xq q) ->
+      eval_rules (gen_auth_rules {| b_auth := cfgs; b_cors := crs; b_extra := exs |}) q out st = Served ->
+      a_deny a = false /\ exists n, a_name a = Some n /\ out n = OOk.
+Proof. exact rendered_rules_fail_closed. Qed.
+Print Assumptions C18_rendered_rules_fail_closed.
+
+(* Paths without external authentication are unaffected: their requests (a CORS preflight
+   aside) go through the generated rules untouched, whatever their siblings declare. *)
+Theorem C18_rendered_rules_unprotected_served : forall b id a out q st,
+  NoDup (map fst (b_auth b)) -> In (id, a) (b_auth b) ->
+  a_deny a = false -> a_name a = None ->
+  q_id (xq q) = id -> xmeth q <> MOptions ->
+  eval_rules (gen_auth_rules b) q out st = Served.
+Proof. exact rendered_rules_unprotected_served. Qed.
+Print Assumptions C18_rendered_rules_unprotected_served.
+
+(* The Cors block in front of the authentication rules either answers the request itself
+   (preflight, use-service) or goes on with the authentication state unchanged; it never
+   lets a request skip the rules that follow. *)
+Theorem C18_rendered_cors_block_flow : forall out q b st,
+  xexec out q st (x_cors_rules b) = Cont st \/ xexec out q st (x_cors_rules b) = Stop AnsweredByProxy.
+Proof. exact cors_rules_flow. Qed.
+Print Assumptions C18_rendered_cors_block_flow.
+
+(* The frontend form { var(req.base) -m str <method> '<key>' }: fail closed when req.base is
+   literally the key ... *)
+Theorem C18_rendered_frontend_fail_closed_exact : forall lua used0 px u tag keys px' hcfgs exs k,
+  process_host lua used0 px PlFrontend (Some (u, tag)) keys = (px', hcfgs) -> In k keys ->
+  exists a, In (k, Some a) hcfgs /\
+    forall out st q, q_path (xq q) = k -> q_exact (xq q) = true ->
+      eval_rules (gen_frontend_rules exs hcfgs) q out st = Served ->
+      a_deny a = false /\ exists n, a_name a = Some n /\ out n = OOk.
+Proof. exact rendered_frontend_fail_closed_exact. Qed.
+Print Assumptions C18_rendered_frontend_fail_closed_exact.
+
+(* ... and refuted without that hypothesis: a request routed to the path whose req.base is
+   not the key is Served although the service answers non-2xx (known finding
+   C18/frontend-rule-exact-match-only). *)
+Theorem C18_rendered_frontend_refuted :
+  exists lua used0 px u tag keys k q,
+    In k keys /\ q_path (xq q) = k /\
+    eval_rules (gen_frontend_rules [] (snd (process_host lua used0 px PlFrontend (Some (u, tag)) keys)))
+      q (fun _ => ONon2xx) false = Served.
+Proof. exact rendered_frontend_refuted. Qed.
+Print Assumptions C18_rendered_frontend_refuted.
